@@ -45,6 +45,8 @@ type invstoreIn struct {
 	// ids an EARLIER run stored in the same inventory object (the wrapper is then built around the populated object, as
 	// the next run's client does); what Store accepts must not depend on it
 	Prev []jid `json:"prev,omitempty"`
+	// the empty set is handed over as a nil slice (the zero value of ObjMetadataSet) instead of an empty one
+	NilSet bool `json:"nilSet,omitempty"`
 }
 
 func newInvCM() *unstructured.Unstructured {
@@ -71,7 +73,11 @@ func runInvstore(in invstoreIn) (out map[string]any) {
 	}
 	st := inventory.WrapInventoryObj(cm)
 	out = map[string]any{"storeErr": false, "keys": []string{}, "loadErr": false, "loaded": []jid{}}
-	if err := st.Store(fromJids(in.IDs), nil); err != nil {
+	toStore := fromJids(in.IDs)
+	if in.NilSet && len(toStore) == 0 {
+		toStore = nil
+	}
+	if err := st.Store(toStore, nil); err != nil {
 		out["storeErr"] = true
 		return out
 	}
@@ -247,6 +253,11 @@ func init() {
 			for _, a := range pool {
 				in := invstoreIn{IDs: []jid{a}}
 				out.Emit("invstore", in, runInvstore(in))
+				// the empty set over an inventory an earlier run populated, as an empty and as a nil slice
+				for _, nilSet := range []bool{false, true} {
+					in = invstoreIn{IDs: []jid{}, Prev: []jid{a}, NilSet: nilSet}
+					out.Emit("invstore", in, runInvstore(in))
+				}
 			}
 			for i, a := range pool {
 				for k, b := range pool {
@@ -283,6 +294,7 @@ func init() {
 						in.Prev = append(in.Prev, proto.Pick(rng, pool))
 					}
 				}
+				in.NilSet = len(in.IDs) == 0 && rng.Bool()
 				out.Emit("invstore", in, runInvstore(in))
 			}
 		},
